@@ -26,6 +26,13 @@ class FeedServer(threading.Thread):
         self.connections = 0
         self.t_last_send = None
         self.peer_closed = False
+        self.gates = {}
+
+    def release(self, name):
+        self.gates.setdefault(name, threading.Event()).set()
+
+    def marked(self, label):
+        return any(e[1] == "mark" and e[2] == label for e in self.log)
 
     def _accept(self, timeout):
         self.sock.settimeout(timeout)
@@ -72,6 +79,12 @@ class FeedServer(threading.Thread):
                         break
                 elif kind == "mark":
                     self.log.append((time.monotonic(), "mark", step[1]))
+                elif kind == "wait_for":
+                    # the driver releases the next part of the feed (e.g. after operator actions)
+                    ev = self.gates.setdefault(step[1], threading.Event())
+                    while not ev.wait(0.1):
+                        if self.stop.is_set():
+                            break
         except Exception as e:  # harness trouble, never a verdict
             self.error = repr(e)
         finally:
